@@ -200,15 +200,33 @@ func (o *OvsdbServer) Transact(client *rpc2.Client, args []json.RawMessage, repl
 		return fmt.Errorf("database %v is not a string", args[0])
 	}
 	var ops []ovsdb.Operation
+	var malformed error
 	for i := 1; i < len(args); i++ {
 		var op ovsdb.Operation
 		err = json.Unmarshal(args[i], &op)
 		if err != nil {
-			return err
+			// the operation fails where it stands: those before it are
+			// executed and have their results, nothing is committed
+			malformed = err
+			break
 		}
 		ops = append(ops, op)
 	}
 	response, updates := o.transact(db, ops)
+	if malformed != nil {
+		failed := false
+		for _, operResult := range response {
+			failed = failed || operResult == nil || operResult.Error != ""
+		}
+		if !failed {
+			response = append(response, &ovsdb.OperationResult{Error: "syntax error", Details: malformed.Error()})
+		}
+		for len(response) < len(args)-1 {
+			response = append(response, nil)
+		}
+		*reply = response
+		return nil
+	}
 	verifPoint("transact.executed")
 	*reply = response
 	for _, operResult := range response {
